@@ -3,6 +3,7 @@
 import json
 import os
 import random
+import re
 import sys
 
 from .. import core
@@ -66,6 +67,28 @@ def candidates():
             before = len(out)
             add(prop, op, sym, l, le, r, re_, radix, plain)
             n += len(out) - before
+    # overflow_integer representations (native and checked tags), mixed widths and signedness, for every operator of every property
+    OV = []
+    for tag, tn in (("cnl::native_overflow_tag", "N"), ("cnl::saturated_overflow_tag", "Sat")):
+        for bc, bn in (("unsigned", "u32"), ("long", "i64"), ("int", "i32"), ("unsigned short", "u16"), ("signed char", "i8")):
+            OV.append(("cnl::overflow_integer<%s,%s>" % (bc, tag), "%s<%s>" % (tn, bn)))
+    for prop, ops in OPS.items():
+        for op, sym in ops:
+            for i in range(14):
+                l = OV[(i * 3 + len(sym)) % len(OV)]; r = OV[(i * 7 + 1) % len(OV)]
+                if l[1][0] != r[1][0]:
+                    r = OV[(OV.index(r) + 5) % len(OV)]   # same tag on both sides
+                le = [-3, 0, -8, 1][i % 4]; re_ = [-1, 0, -8, -2][(i // 2) % 4]
+                if op == "NEG":
+                    r, re_ = l, le
+                add(prop, op, sym, l, le, r, re_, 2, 0)
+    # division family: every pairing of the overflow_integer base types (the quotient's type follows the built-in rules for the pair)
+    for op, sym in OPS["C02"]:
+        for li in range(5):
+            for ri in range(5):
+                for t in (0, 5):
+                    le, re_ = [(-3, -1), (0, 0), (-8, -2)][(li + ri + t) % 3]
+                    add("C02", op, sym, OV[t + li], le, OV[t + ri], re_, 2, 0)
     return out
 
 
@@ -81,6 +104,16 @@ def select(prop, tier, seed):
     ncore = 120
     n = {"quick": 360, "thorough": len(uni)}[tier]
     chosen = uni[:ncore] + rng.sample(uni[ncore:], max(0, min(len(uni) - ncore, n - ncore)))
+    # always: unary minus on every unsigned rep whose digits fill its storage (the signed result is wider than the operand's rep: the
+    # negation must happen after the widening), one exponent/radix each
+    seen = set()
+    for k in uni:
+        d = k["desc"].split()
+        if re.search(r"s<(N|Sat)<", k["desc"]) and sum(map(ord, k["desc"])) % 2 == seed % 2 and k not in chosen:
+            chosen.append(k)   # overflow_integer reps: half of them per seed
+        if d[0] == "neg" and re.match(r"s<(e16u|e32u|u8|u16|u32|u64),", d[1]) and (d[1].split(",")[0], d[2]) not in seen and k not in chosen:
+            seen.add((d[1].split(",")[0], d[2]))
+            chosen.append(k)
     return [(k["desc"], k["stmt"]) for k in chosen]
 
 
